@@ -369,7 +369,22 @@ pub fn lax_pool(c: &Case) -> Vec<StepObs> {
                 }
                 (Some(f), Some(Plain::tensor_all(&ops.iter().map(|o| Plain::singleton(o.0, &o.1, &o.2)).collect::<Vec<_>>())))
             }
-            PoolOp::Functor { .. } | PoolOp::RoundTrip { .. } | PoolOp::Optic { .. } => continue, // C12 / C14 / the strict pool cover these
+            PoolOp::Optic { i, adapted } => {
+                use open_hypergraphs::lax::optic::Optic as LaxOptic;
+                let a = pick(i);
+                let spec = match &c.ospec {
+                    Some(s) if a.1.w.len() <= 6 && a.1.e.len() <= 3 => s,
+                    _ => continue,
+                };
+                let o = super::c14::LaxGen { spec: spec.clone() };
+                let img = super::c14::optic_reference(spec, &a.1);
+                if *adapted {
+                    (Some(o.map_adapted(a.0.clone())), Some(super::c14::adapted_reference(spec, &img, &a.1.src_type(), &a.1.tgt_type())))
+                } else {
+                    (Some(o.map_arrow(a.0.clone())), Some(img))
+                }
+            }
+            PoolOp::Functor { .. } | PoolOp::RoundTrip { .. } => continue, // C12 / the strict pool cover these
         };
         let keep = want.as_ref().map_or(false, |w| w.w.len() <= MAX_NODES && w.e.len() <= MAX_NODES);
         let trait_types = got.as_ref().map(|g| (Arrow::source(g), Arrow::target(g)));
